@@ -87,6 +87,7 @@ def main():
         out["steps"]["demo_patched_tail"] = (r.stdout + r.stderr)[-300:]
         tests = a.tests.split() if a.tests else tests_for(files)
         out["tests"] = tests
+        out["needs"] = (open(os.path.join(src, "notes.md")).read()[:1500] if os.path.exists(os.path.join(src, "notes.md")) else "")
         if tests and not a.skip_tests:
             par = "" if any("persistent" in t for t in tests) else "-n 8"
             r = sh("timeout 3000 /venv/bin/python -m pytest -q -p no:cacheprovider --timeout=900 %s %s 2>&1 | tail -15" % (par, " ".join(tests)), cwd=wt, env=env, timeout=3100)
@@ -99,6 +100,16 @@ def main():
             out["steps"]["tests_unexpected_failures"] = bad[:5]
         else:
             out["steps"]["tests_ok"] = None
+            # carry over an earlier validation of the existing tests (this run only re-executed the demo and the checks)
+            try:
+                prev = json.load(open(os.path.join(HERE, "seeded", a.name, "meta.json")))
+                for k in ("tests_ok", "tests_tail", "tests_unexpected_failures"):
+                    if prev.get("steps", {}).get(k) is not None:
+                        out["steps"][k] = prev["steps"][k]
+                if prev.get("tests"):
+                    out["tests"] = prev["tests"]
+            except Exception:
+                pass
         props = (a.props.split(",") if a.props else [a.prop])
         out["checks"] = {}
         for pid in props:
